@@ -121,6 +121,25 @@ def detect_bursts_dual_threshold(sig, fs, dual_thresh, f_range=None, min_n_cycle
     return CUR.dual_threshold(sig, fs, dual_thresh, f_range, min_n_cycles, min_burst_duration, kw)
 
 
+def next_fast_len(target, real=False):
+    """scipy.fft.next_fast_len for complex transforms: the smallest 11-smooth integer >= target (pure integer
+    function; compared with scipy's on every run by the conformance step)."""
+    n = int(target)
+    if n < 0:
+        raise ValueError("Target cannot be negative")
+    if real:
+        raise NotImplementedError("next_fast_len(real=True)")
+    m = max(n, 1) if n else 0
+    while True:
+        k = m
+        for p in (2, 3, 5, 7, 11):
+            while k > 1 and k % p == 0:
+                k //= p
+        if k <= 1:
+            return m
+        m += 1
+
+
 def zscore(a, *args, **kwargs):
     CUR.calls.append(('zscore', dict(n=len(a))))
     if CUR.zscore is None:
@@ -312,6 +331,7 @@ def install_symbolic():
     _mod('neurodsp.plts.utils', savefig=savefig)
     _mod('scipy')
     _mod('scipy.stats', zscore=zscore)
+    _mod('scipy.fft', next_fast_len=next_fast_len)
     _mod('matplotlib')
     _mod('matplotlib.pyplot', subplots=plt.subplots, figure=plt.figure, gca=plt.gca)
     _mod('tqdm', tqdm=_Tqdm.tqdm)
